@@ -24,6 +24,11 @@ type mcCase struct {
 	N     []int     `json:"n"`
 	Bits  uint64    `json:"bits"`
 	Place int       `json:"place"`
+	// Between: what the solid answers away from the lattice points (more than a quarter spacing from the nearest one in
+	// some coordinate). 0: the value of the nearest lattice point; 1: inside; 2: outside; 3: alternating by cell.
+	// The mesher samples lattice points only, so the topology must not depend on it; code that samples anything else
+	// (a cell centre to resolve an ambiguous cell, say) sees all of these.
+	Between int `json:"between,omitempty"`
 	Gen   string    `json:"gen,omitempty"`
 	Args  []float64 `json:"args,omitempty"`
 }
@@ -76,7 +81,11 @@ func checkMC3(r *ev.Run, c mcCase) {
 	pl := placements3[c.Place]
 	s := lat.NewSolid3(pl.o, pl.d, [3]int{c.N[0], c.N[1], c.N[2]}, c.Bits)
 	var m *model3d.Mesh
-	if p := ev.Try(func() { m = runMC3(c.Algo, s, pl.d) }); p != "" {
+	var sol model3d.Solid = s
+	if c.Between != 0 {
+		sol = between3{s, c.Between}
+	}
+	if p := ev.Try(func() { m = runMC3(c.Algo, sol, pl.d) }); p != "" {
 		r.Violation("mc3/"+c.Algo+"/panic", "panic: "+p, c)
 		return
 	}
@@ -132,6 +141,15 @@ func enumMC3(r *ev.Run, dims [][3]int) {
 						r.Eval(1)
 					}
 				}
+				// away-from-lattice behaviours (see mcCase.Between) on an eighth of the assignments
+				if (b*2654435761>>5)%8 == 0 {
+					for mode := 1; mode <= 3; mode++ {
+						for _, a := range []string{"MarchingCubes", "MarchingCubesSearch2"} {
+							checkMC3(r, mcCase{Kind: "mc3", Algo: a, N: nn, Bits: b, Place: 0, Between: mode})
+							r.Eval(1)
+						}
+					}
+				}
 			}
 		})
 		r.NontrivialAdd(int(nt))
@@ -180,6 +198,44 @@ func largeLattice(r *ev.Run) {
 	}
 }
 
+type between2 struct {
+	*lat.Solid2
+	mode int
+}
+
+func (b between2) Contains(c model2d.Coord) bool {
+	fx, fy := (c.X-b.Origin.X)/b.Delta, (c.Y-b.Origin.Y)/b.Delta
+	if math.Abs(fx-math.Round(fx)) <= 0.25 && math.Abs(fy-math.Round(fy)) <= 0.25 {
+		return b.Solid2.Contains(c)
+	}
+	switch b.mode {
+	case 1:
+		return true
+	case 2:
+		return false
+	}
+	return (int(math.Floor(fx))+int(math.Floor(fy)))%2 == 0
+}
+
+type between3 struct {
+	*lat.Solid3
+	mode int
+}
+
+func (b between3) Contains(c model3d.Coord3D) bool {
+	fx, fy, fz := (c.X-b.Origin.X)/b.Delta, (c.Y-b.Origin.Y)/b.Delta, (c.Z-b.Origin.Z)/b.Delta
+	if math.Abs(fx-math.Round(fx)) <= 0.25 && math.Abs(fy-math.Round(fy)) <= 0.25 && math.Abs(fz-math.Round(fz)) <= 0.25 {
+		return b.Solid3.Contains(c)
+	}
+	switch b.mode {
+	case 1:
+		return true
+	case 2:
+		return false
+	}
+	return (int(math.Floor(fx))+int(math.Floor(fy))+int(math.Floor(fz)))%2 == 0
+}
+
 // ---------- 2D ----------
 
 var placements2 = []struct {
@@ -191,15 +247,19 @@ var algos2 = []string{"MarchingSquares", "MarchingSquaresSearch2", "MarchingSqua
 func checkMS2(r *ev.Run, c mcCase) {
 	pl := placements2[c.Place]
 	s := lat.NewSolid2(pl.o, pl.d, [2]int{c.N[0], c.N[1]}, c.Bits)
+	var sol model2d.Solid = s
+	if c.Between != 0 {
+		sol = between2{s, c.Between}
+	}
 	var m *model2d.Mesh
 	if p := ev.Try(func() {
 		switch c.Algo {
 		case "MarchingSquares":
-			m = model2d.MarchingSquares(s, pl.d)
+			m = model2d.MarchingSquares(sol, pl.d)
 		case "MarchingSquaresSearch2":
-			m = model2d.MarchingSquaresSearch(s, pl.d, 2)
+			m = model2d.MarchingSquaresSearch(sol, pl.d, 2)
 		case "MarchingSquaresFilterTrue":
-			m = model2d.MarchingSquaresFilter(s, func(*model2d.Rect) bool { return true }, pl.d)
+			m = model2d.MarchingSquaresFilter(sol, func(*model2d.Rect) bool { return true }, pl.d)
 		}
 	}); p != "" {
 		r.Violation("ms2/"+c.Algo+"/panic", "panic: "+p, c)
@@ -252,6 +312,12 @@ func enumMS2(r *ev.Run, dims [][2]int) {
 				for pi := range placements2 {
 					for _, a := range algos2 {
 						checkMS2(r, mcCase{Kind: "ms2", Algo: a, N: nn, Bits: b, Place: pi})
+						r.Eval(1)
+					}
+				}
+				for mode := 1; mode <= 3; mode++ {
+					for _, a := range algos2 {
+						checkMS2(r, mcCase{Kind: "ms2", Algo: a, N: nn, Bits: b, Place: 0, Between: mode})
 						r.Eval(1)
 					}
 				}
